@@ -1190,6 +1190,32 @@ def _run_fcl(c):
                 if e0 != emin:
                     fails.add('planted', f"{desc}: {tag}the planted assignment{' (negated)' if sgn < 0 else ''} has energy {e0}, "
                               f"the minimum is {emin}")
+        # one planted loop (Model/FrustLoop.v planted_J): the non-zero couplings form ONE simple cycle, exactly one of
+        # them is +1 (anti-ferromagnetic), all others -1
+        if ncyc == 1 and plant and planted is None and not fails.items:
+            nz = {e: x for e, x in got.items() if x != 0}
+            deg = {}
+            for e in nz:
+                for v in e:
+                    deg[v] = deg.get(v, 0) + 1
+            if sorted(nz.values()) != [Fraction(-1)] * (len(nz) - 1) + [Fraction(1)] or len(nz) < 3 or set(deg.values()) != {2}:
+                fails.add('planted', f"{desc}: {tag}one planted loop must be a simple cycle with one +1 and otherwise -1 couplings: "
+                          f"{sorted((tuple(e), str(x)) for e, x in nz.items())!r}")
+            else:
+                # connected: a single cycle, not several
+                adjm = {}
+                for e in nz:
+                    u_, v_ = tuple(e)
+                    adjm.setdefault(u_, []).append(v_)
+                    adjm.setdefault(v_, []).append(u_)
+                seen, stack = set(), [next(iter(adjm))]
+                while stack:
+                    w_ = stack.pop()
+                    if w_ not in seen:
+                        seen.add(w_)
+                        stack += adjm[w_]
+                if len(seen) != len(adjm):
+                    fails.add('planted', f"{desc}: {tag}the couplings of one loop are not connected")
         # every loop is frustrated: sum over loops (len - 2) with one violated edge each => the minimum is > -sum|J|
         if not plant and len(nodes) <= 8 and not fails.items and any(x != 0 for x in got.values()):
             order = list(b.variables)
